@@ -1,6 +1,7 @@
 package main
 
 import (
+	"verifharness/internal/cors"
 	"verifharness/internal/report"
 	"verifharness/internal/serve"
 )
@@ -80,6 +81,11 @@ func init() {
 		run.Rule = "histories of 1–6 requests; every request is answered (a) in its position, (b) alone on a fresh container and provider, (c) with trace logging enabled, (d) concurrently with the other requests of the history (3 goroutines per request); all four answers must be the same (status, framework headers, decoded body, parameters and attributes seen by every stage) and equal to the model's; non-trivial = more than one stage ran"
 		serveMeta(run)
 		n := sizes(run, 300, 6000)
-		return serve.CheckPurity(run, serve.GenOpts{Router: "curly", PanicPct: 3}, n, 6)
+		if err := serve.CheckPurity(run, serve.GenOpts{Router: "curly", PanicPct: 3}, n, 6); err != nil {
+			return err
+		}
+		// the filters the framework ships are part of "the response": histories through one CORS filter
+		// value (computed methods, preflights for different URLs) against fresh replays
+		return cors.CheckPurity(run, n/2)
 	}
 }
